@@ -358,6 +358,12 @@ func (so *Sorts) typeAssume(v Term, t types.Type) Term {
 		return and(cs...)
 	case *types.Pointer, *types.Map:
 		return app("Bool", "<=", Term{"0", "Int"}, v)
+	case *types.Array:
+		// elements of an integer array value are in the range of their type
+		if eb, ok := u.Elem().Underlying().(*types.Basic); ok && eb.Info()&types.IsInteger != 0 && u.Len() < 1<<30 {
+			el := Term{"(select " + v.S + " wk)", "Int"}
+			return Term{fmt.Sprintf("(forall ((wk Int)) (! %s :pattern (%s)))", inRange(el, u.Elem()).S, el.S), "Bool"}
+		}
 	}
 	return tTrue
 }
